@@ -256,8 +256,10 @@ Proof.
 Qed.
 
 (* ---- FILE LEVEL WITH PERSONS: [bibp_ok enc d] (Proofs/WritersBibP.v) is bib_ok with persons allowed: every role
-   (author / editor in any letter case, a NAME) has at least one person; every person is [name_ok]: [expressible]
-   (plain comma-free tokens, exactly one first-name token, a last name, von part empty or ending with a von token, no
+   (author / editor in any letter case, a NAME) has at least one person; every person is [name_okx]
+   (Proofs/WritersNameList.v: its formatted text is a list of words none of which is "and", and the name parser reads it
+   back), of which [name_ok] and the no-first-name form are instances (name_ok_instance, name_nofirst_instance below);
+   [name_ok] = [expressible] (plain comma-free tokens, exactly one first-name token, a last name, von part empty or ending with a von token, no
    last-name token but the final one a von token) and no token is the word "and" in any letter case; the
    " and "-joined text of the formatted names is brace-balanced, whitespace-normalised and left alone by the encoder.
    The writer writes a role as one more field; the reader cuts it with split_name_list (re.split on ' and ', proved
@@ -276,21 +278,30 @@ Theorem name_comma_refuted : exists rd, write_read latex_enc FBib (person_db com
 Proof. exact name_comma_refuted_pf. Qed.
 Print Assumptions name_comma_refuted.
 
-(* ---- chains of any formats over the domain with persons (tree_ok /\ bibp_ok), preserve_case on.
-   Partial: preserve_case = False over this domain is not proved (it is for the person-free domain: chain_roundtrip_partial) *)
-Theorem chain_roundtrip_persons_partial : forall enc fs d, allp_ok enc d -> chain enc fs true d = Ok (expect fs true d).
-Proof. exact chain_roundtrip_persons_pf. Qed.
+(* ---- chains of any formats (any length) over the domain with persons (tree_ok /\ bibp_ok), with or without
+   identifier lower-casing (lower-casing keeps this domain too: roles stay roles, NAMEs stay NAMEs). *)
+Theorem chain_roundtrip_persons_partial : forall enc fs pc d, allp_ok enc d -> chain enc fs pc d = Ok (expect fs pc d).
+Proof. exact chain_roundtrip_persons_pc_pf. Qed.
 Print Assumptions chain_roundtrip_persons_partial.
+
+(* the two syntactic instances of the name domain of the file-level theorem *)
+Theorem name_ok_instance : forall p, name_ok p -> name_okx p.
+Proof. exact name_ok_x. Qed.
+Print Assumptions name_ok_instance.
+Theorem name_nofirst_instance : forall p, expressible0 p -> Forall noand_tok (p_prelast p ++ p_last p) -> name_okx p.
+Proof. exact name_ok0_x. Qed.
+Print Assumptions name_nofirst_instance.
 
 Example ex_bibp_ok : bibp_ok latex_enc ex_db /\ wd_entries ex_db <> [] /\
   write_read latex_enc FBib ex_db = Ok (norm_preamble ex_db) /\ we_persons (hd (mkWE [] [] [] []) (wd_entries ex_db)) <> [].
 Proof.
   split; [|split; [discriminate|split; [vm_compute; reflexivity|discriminate]]].
-  unfold bibp_ok, bibp_ok_entry, wf_entry, role_ok, name_ok, expressible, wok_field, bib_ok_field, role_fields.
+  unfold bibp_ok, bibp_ok_entry, wf_entry, role_ok, wok_field, bib_ok_field, role_fields.
   repeat match goal with
          | |- _ /\ _ => split
          | |- Forall _ _ => constructor
          | |- NoDup _ => constructor
+         | |- name_okx _ => apply name_ok_x; unfold name_ok, expressible
          end;
     try solve [vm_compute; reflexivity]; try discriminate; try solve [eexists; reflexivity];
     try solve [right; vm_compute; reflexivity]; try solve [left; reflexivity];
@@ -343,3 +354,21 @@ Proof.
     right. split; [vm_compute; reflexivity|]. split; [vm_compute; reflexivity|]. split; [discriminate|]. split; [discriminate|].
     cbn [removelast]. constructor; [vm_compute; reflexivity|constructor].
 Qed.
+
+(* plain-token names (both forms) also satisfy the hypothesis parts_ok of the YAML / BibTeXML glue theorems, so for such
+   persons the common chain domain allp_ok reduces to conditions on identifiers and values *)
+Theorem expressible_parts_ok : forall p, expressible p -> parts_ok p.
+Proof. exact Proofs.WritersName0.expressible_parts_ok. Qed.
+Print Assumptions expressible_parts_ok.
+Theorem expressible0_parts_ok : forall p, expressible0 p -> parts_ok p.
+Proof. exact Proofs.WritersName0.expressible0_parts_ok. Qed.
+Print Assumptions expressible0_parts_ok.
+
+(* non-vacuity of the widened file-level domain: authors without a first name, a chain with lower-casing *)
+Definition ex_db_nofirst : wdb :=
+  mkWDb [mkWE (s2l "Key1") (s2l "Book") [(s2l "Title", s2l "T")]
+              [(s2l "Author", [mkPerson [] [] [s2l "van"; s2l "der"] [s2l "Waals"; s2l "Jansen"] []; mkPerson [] [] [] [s2l "Knuth"] []; ex_person])]] [].
+Example ex_nofirst_roundtrip :
+  write_read latex_enc FBib ex_db_nofirst = Ok ex_db_nofirst /\
+  chain latex_enc [FBib; FYaml; FBib; FXml] false ex_db_nofirst = Ok (map_ids lower ex_db_nofirst).
+Proof. split; vm_compute; reflexivity. Qed.
